@@ -90,20 +90,24 @@ class G16:
         r = self.r
         for _ in range(r.n(0, 2)):
             m = r.pick(["ext_a", "ext_b"])
+            # module-nature axis: 'use :: m', 'use, intrinsic :: m', 'use, non_intrinsic :: m' (R1109)
+            nat = r.pick(["", "", " ::", ", intrinsic ::", ", non_intrinsic ::", ",intrinsic::"])
+            if "intrinsic" in nat and "non_" not in nat:
+                m = r.pick(["iso_c_binding", "iso_fortran_env"])
             c = r.n(0, 3)
             if c == 0:
-                self.emit("use %s" % m)
+                self.emit("use%s %s" % (nat, m))
             elif c == 1:
                 nm = r.pick(list(INTR) + ORD)
-                self.emit("use %s, only: %s" % (m, self.sp(nm)))
+                self.emit("use%s %s, only: %s" % (nat, m, self.sp(nm)))
                 sc.imported.add(nm)
             elif c == 2:
                 nm = r.pick(list(INTR) + ORD)
-                self.emit("use %s, %s => remote_x" % (m, self.sp(nm)))
+                self.emit("use%s %s, %s => remote_x" % (nat, m, self.sp(nm)))
                 sc.imported.add(nm)
             else:
                 nm = r.pick(list(INTR))
-                self.emit("use %s, only: loc_y => %s" % (m, nm))   # remote name only: does not shadow
+                self.emit("use%s %s, only: loc_y => %s" % (nat, m, nm))   # remote name only: does not shadow
                 sc.imported.add("loc_y")
             sc.modules.add(m)
         for _ in range(r.n(0, 3)):
